@@ -513,6 +513,163 @@ def protocol_scenarios(tw, rep):
     return out
 
 
+# ---------------------------------------------------------------- (i-c) chains of transactions on one connection
+WATCH_KEYS = [b"wk", b"k1", b"l"]
+
+
+def gen_chain(r):
+    """2-4 transactions one after another on ONE connection; the earlier ones end in every possible way (EXEC that
+    runs, EXEC aborted because another connection changed a WATCHed key, DISCARD, commands failing at run time or
+    refused names queued, MULTI inside MULTI, EXEC/DISCARD without MULTI in between); the last one is a fresh
+    MULTI..EXEC that must run exactly its own commands"""
+    g = QueueGen(r)
+    rounds = []
+    n = r.range(2, 4)
+    for i in range(n):
+        last = i == n - 1
+        k = r.below(100)
+        watch = [r.choice(WATCH_KEYS) for _ in range(r.range(1, 2))] if (k < 55 or (last and r.chance(1, 3))) else []
+        touch = "none"
+        if watch and not last and k < 42:
+            touch = r.choice(["before-multi", "after-queue"])
+        end = "exec" if (last or k < 80) else "discard"
+        q, _ = g.queue(r.range(0 if not last else 1, 5))
+        rounds.append({"watch": [hx(x) for x in watch], "touch": touch, "pre": r.choice(["none", "none", "none", "exec", "discard"]),
+                       "nested": r.below(7) if r.chance(1, 5) else 0, "queue": [[hx(x) for x in c] for c in q], "end": end})
+    return {"kind": "chain", "setup": [[hx(x) for x in c] for c in g.setup()], "rounds": rounds}
+
+
+def chain_text(case):
+    def t(c):
+        return " ".join(unhx(x).decode("latin-1") for x in c)
+    return {"setup": [t(c) for c in case["setup"]],
+            "rounds": [{"watch": [unhx(x).decode("latin-1") for x in rd["watch"]], "another_connection_changes_watched_key": rd["touch"], "first": rd["pre"],
+                        "nested_multi_at": rd["nested"], "queue": [t(c) for c in rd["queue"]], "end": rd["end"]} for rd in case["rounds"]]}
+
+
+def run_chain_case(tw, case, rep=None):
+    tw.fresh()
+    m, cid = tw.model, tw.cid
+    res = {"steps": [], "oracle": [], "disagree": [], "tags": set()}
+
+    def step(cli, args, what, names=None, conn=None, watch_ok=True):
+        impl = tw.impl(cli, args, names)
+        code, spec, same = m.frame(cid if conn is None else conn, args, watch_ok)
+        st = {"text": " ".join(repr(x.decode("latin-1")) for x in args), "what": what, "impl": impl, "code": code, "spec": spec, "same": same}
+        res["steps"].append(st)
+        if impl != code:
+            res["disagree"].append(st)
+        if failed_oracle(impl, code, spec, same):
+            res["oracle"].append(dict(st, why="reply (or the state the model's source variant reaches with it) differs from the prescribed one"))
+        return impl
+
+    def oracle(ok, why, **kw):
+        if not ok:
+            res["oracle"].append(dict(kw, why=why))
+
+    for c in case["setup"]:
+        c = [unhx(x) for x in c]
+        step(tw.a, c, "setup")
+        tw.impl(tw.t, c)
+    all_cmds = []
+    for ri, rd in enumerate(case["rounds"]):
+        queue = [[unhx(x) for x in c] for c in rd["queue"]]
+        watch = [unhx(x) for x in rd["watch"]]
+        names = [name_of(c) for c in queue]
+        all_cmds += queue
+        touched = False
+
+        def touch():
+            c = [b"SET", watch[0], b"changed%d" % ri]
+            step(tw.b, c, "another-connection-changes-watched-key", conn=9001)
+            tw.impl(tw.tobs, c)
+        if rd["pre"] in ("exec", "discard"):
+            r0 = step(tw.a, [rd["pre"].upper().encode()], rd["pre"] + "-without-multi")
+            oracle(r0 == "( e )", "%s without MULTI must be refused" % rd["pre"].upper(), got=r0, round=ri)
+        if watch:
+            r0 = step(tw.a, [b"WATCH"] + watch, "watch")
+            oracle(r0 == OK, "WATCH must answer OK", got=r0, round=ri)
+        if watch and rd["touch"] == "before-multi":
+            touch()
+            touched = True
+        r0 = step(tw.a, [b"MULTI"], "multi")
+        oracle(r0 == OK, "MULTI must answer OK", got=r0, round=ri)
+        nested_at = rd["nested"] % (len(queue) + 1) if (rd["nested"] and queue) else None
+        for i, c in enumerate(queue):
+            if nested_at == i:
+                r0 = step(tw.a, [b"MULTI"], "nested-multi")
+                oracle(r0 == "( e )", "nested MULTI must be refused", got=r0, round=ri)
+            r0 = step(tw.a, c, "queue")
+            oracle(r0 == QUEUED, "a command between MULTI and EXEC must be answered QUEUED", got=r0, round=ri)
+        if watch and rd["touch"] == "after-queue":
+            touch()
+            touched = True
+        if rd["end"] == "exec":
+            got = step(tw.a, [b"EXEC"], "exec", names=names, watch_ok=not touched)
+            if touched:
+                oracle(got == "( na )", "EXEC after a WATCHed key was changed by another connection must answer a null array", got=got, round=ri)
+                outcome = "aborted-by-watch"
+            else:
+                direct = [tw.direct_equiv(tw.t, c) for c in queue]
+                want = "( a%s )" % "".join(" " + x for x in direct)
+                oracle(got == want, "EXEC of transaction %d on this connection must return exactly the replies of ITS %d queued commands (as sent directly to the twin)"
+                       % (ri + 1, len(queue)), exec=got, direct=want, round=ri)
+                outcome = "ran" if "( e )" not in got else "ran-with-errors"
+        else:
+            r0 = step(tw.a, [b"DISCARD"], "discard")
+            oracle(r0 == OK, "DISCARD must answer OK", got=r0, round=ri)
+            outcome = "discarded"
+        if rep:
+            rep.count("chain.round%d.%s" % (min(ri, 3), outcome))
+            rep.nontrivial(("chain", min(ri, 3), outcome, rd["pre"], bool(nested_at is not None), len(queue) > 0))
+    after = step(tw.a, [b"EXEC"], "exec-again")
+    oracle(after == "( e )", "transaction state not cleared at the end of the chain", got=after)
+    for pc in [[b"RPUSH", k, b"probe"] for k in named_keys(all_cmds)[:6]]:
+        step(tw.b, pc, "probe", conn=9001)
+        tw.impl(tw.tobs, pc)
+    tw.turn(tw.b)
+    da, dt, dm, ds = dump_db(tw.b, 0), dump_db(tw.tobs, 0), m.dump(0), m.dumpspec(0)
+    oracle(da == dt, "dataset after the chain of transactions differs from the twin's (which ran directly exactly the commands of the transactions that were executed)",
+           impl_dump=da, twin_dump=dt)
+    oracle(da == ds, "dataset after the chain of transactions differs from the prescribed one", impl_dump=da, prescribed=ds)
+    if da != dm:
+        res["disagree"].append({"what": "dump db 0", "impl": da, "code": dm})
+    return res
+
+
+def shrink_chain(case, findings):
+    rep = Report(PID, "shrink", 0)
+    tw = Twin(rep)
+
+    def fails(c):
+        res = run_chain_case(tw, c)
+        return bool(res["oracle"])
+    try:
+        if not fails(case):
+            return case
+        small = dict(case)
+        if len(small["rounds"]) > 1:
+            small["rounds"] = shrink_list(small["rounds"], lambda rs: fails(dict(small, rounds=rs)), max_steps=20)
+        for i in range(len(small["rounds"])):
+            rd = small["rounds"][i]
+            if len(rd["queue"]) > 1:
+                def with_q(q, i=i, rd=rd):
+                    rs = list(small["rounds"])
+                    rs[i] = dict(rd, queue=q)
+                    return dict(small, rounds=rs)
+                q = shrink_list(rd["queue"], lambda q: fails(with_q(q)), max_steps=20)
+                small = with_q(q)
+        if len(small["setup"]) > 1:
+            small["setup"] = shrink_list(small["setup"], lambda su: fails(dict(small, setup=su)), max_steps=15)
+        small["text"] = chain_text(small)
+        small["shrunk_from"] = {"rounds": len(case["rounds"])}
+        return small
+    except (InternalError, OSError):
+        return case
+    finally:
+        tw.close()
+
+
 def gen_mode(r):
     k = r.below(100)
     end = "exec" if k < 66 else ("discard" if k < 80 else ("disconnect" if k < 94 else "quit"))
@@ -594,6 +751,7 @@ def run_interleaved(rep, tw, r, n_events, given=None):
     for s in list(range(nconn)) + list(BLOCKER_SLOTS):
         connect(s)
     events, oracle, disagree = [], [], []
+    burst = {}          # slot -> commands still to send: a transaction working several times on a key somebody waits on
 
     def note(key):
         if rep:
@@ -635,11 +793,25 @@ def run_interleaved(rep, tw, r, n_events, given=None):
                     kind = "block"
                     args = [r.choice([b"BLPOP", b"BRPOP"])] + [r.choice(BLOCK_KEYS) for _ in range(r.range(1, 2))] + [b"0"]
                 else:
-                    slot = r.below(nconn)
+                    pending = [sl for sl in burst if burst[sl]]
+                    slot = r.choice(pending) if (pending and r.chance(2, 3)) else r.below(nconn)
                     _, intx, _, _ = m.conn(ids[slot])
                     k = r.below(100)
                     kind = "frame"
-                    if intx:
+                    if intx and not burst.get(slot) and blocked and r.chance(1, 4):
+                        # a transaction that pushes to a key a third party waits on, then runs a command after which
+                        # the server sweeps the waiters (RENAME/RENAMENX) or other commands, then looks at / pops the key:
+                        # it must see its own element - nobody is served before EXEC is over
+                        w = [x for x in m.waiters().split(";") if x != "."]
+                        wkey = unhx(r.choice(r.choice(w).split(":")[3].split(","))) if w else r.choice(BLOCK_KEYS)
+                        mid = r.choice([[b"RENAME", b"k1", b"k1x"], [b"RENAMENX", b"k1", b"k2"], [b"RENAME", b"miss", b"nokey"], [b"RENAME", b"h", b"h2"],
+                                        [b"SET", b"mid", b"1"], [b"RENAME", b"l", b"l9"]])
+                        burst[slot] = [[r.choice([b"RPUSH", b"LPUSH"]), wkey] + [r.choice([b"a", b"b"]) for _ in range(r.range(1, 2))], mid,
+                                       r.choice([[b"LLEN", wkey], [b"LPOP", wkey], [b"RPOP", wkey], [b"LRANGE", wkey, b"0", b"-1"]]), [b"EXEC"]]
+                        note("il.tx-burst.push-sweep-read-on-waited-key")
+                    if intx and burst.get(slot):
+                        args = burst[slot].pop(0)
+                    elif intx:
                         if k < 30:
                             args = g.queue(1, specials=False)[0][0]
                         elif k < 55:
@@ -681,6 +853,7 @@ def run_interleaved(rep, tw, r, n_events, given=None):
                 clis[slot].close()
                 m.disc(cid)
                 connect(slot)
+                burst.pop(slot, None)
                 continue
             _, intx, qlen, _ = m.conn(cid)
             nm = name_of(args)
@@ -720,6 +893,8 @@ def run_interleaved(rep, tw, r, n_events, given=None):
                 qn.setdefault(cid, []).append(nm)
             elif not intx or not intx2:
                 qn[cid] = []
+            if not intx2:
+                burst.pop(slot, None)
             st = {"event": i, "conn": slot, "text": " ".join(repr(x.decode("latin-1")) for x in args), "impl": impl, "code": code, "spec": spec,
                   "same": same, "in_tx": intx}
             cls = nm if nm in CONTROL else ("bpop" if nm in ("BLPOP", "BRPOP") else ("push" if nm in ("LPUSH", "RPUSH") else "cmd"))
@@ -977,7 +1152,10 @@ def main(tier, seed):
                 "(a queued blocking pop acting as its non-blocking variant): EXEC's array must equal the direct replies; transactions ended by DISCARD, a closed socket "
                 "or QUIT must leave the dataset untouched; after EVERY transaction a post-transaction probe: another connection pushes to every key the transaction "
                 "named (on A, on the twin, in the model) and the dumps must be equal to the twin's and to the prescribed state (a finished transaction has no further "
-                "effect); every reply and dump compared with the Lean model. (ii) interleaved schedules of 2-3 connections (transactions, plain commands, list traffic, "
+                "effect); every reply and dump compared with the Lean model. (i-c) chains of 2-4 transactions on ONE connection whose earlier ones end in every way (EXEC that runs, "
+                "EXEC aborted because another connection changed a WATCHed key before MULTI or after the queueing, DISCARD, run-time failures and refused names in the "
+                "queue, MULTI inside MULTI, EXEC/DISCARD without MULTI in between) followed by a fresh MULTI..EXEC that must return exactly its own slots and leave the "
+                "twin's dataset. (ii) interleaved schedules of 2-3 connections (transactions, plain commands, list traffic, "
                 "SELECT, disconnects) plus up to two third-party clients blocked in BLPOP/BRPOP on the keys the transactions push to: the model predicts every reply and "
                 "which blocked client is served what after which frame - never inside an EXEC, after it if an element is left. (iii) real-time transfer workload "
                 "(MULTI/EXEC, pipelined, Lua writers; MGET and MULTI-GET readers; constant sum). (iv) witnesses of the three deviations of the tree as found, against "
@@ -1042,6 +1220,22 @@ def main(tier, seed):
                 disagreements.append({"case": case_json(case), "first": res["disagree"][0]})
             elif res["disagree"]:
                 disagreements.append({"case": case_json(case), "first": res["disagree"][0], "with_oracle_failure": True})
+
+        # ---------------- (i-c) chains of transactions on one connection
+        n_chain = 200 if tier == "quick" else 5000
+        for i in range(n_chain):
+            if not tw.alive():
+                break
+            case = gen_chain(r.fork("chain%d" % i))
+            res = run_chain_case(tw, case, rep)
+            rep.evaluations += len(res["steps"]) + 1
+            rep.traces_validated += 1
+            if res["oracle"]:
+                new_fail.append(("chain of transactions on one connection: %s" % res["oracle"][0]["why"], dict(case, text=chain_text(case)), res))
+            if res["disagree"]:
+                disagreements.append({"case": case, "first": res["disagree"][0], "with_oracle_failure": bool(res["oracle"])})
+            if i < 1:
+                rep.sample({"chain_case": chain_text(case), "steps": [st["text"] + " -> " + st["impl"] for st in res["steps"][:30]]})
 
         ps = protocol_scenarios(tw, rep)
         if ps["oracle"]:
@@ -1115,11 +1309,13 @@ def main(tier, seed):
     rep.extra["model_disagreements"] = len(disagreements)
     rep.extra["oracle_failures_unexplained"] = len(new_fail)
     if new_fail:
-        what, rp, res = sorted(new_fail, key=lambda x: (x[1].get("kind") not in ("twin", "interleaved"), x[1].get("kind") != "twin", len(json.dumps(x[1]))))[0]
+        what, rp, res = sorted(new_fail, key=lambda x: (x[1].get("kind") not in ("twin", "interleaved", "chain"), x[1].get("kind") not in ("twin", "chain"), len(json.dumps(x[1]))))[0]
         if rp.get("kind") == "twin":
             rp = shrink_twin(rp, findings)
         elif rp.get("kind") == "interleaved":
             rp = shrink_interleaved(rp, findings)
+        elif rp.get("kind") == "chain":
+            rp = shrink_chain(rp, findings)
         detail = {k: (sorted(v) if isinstance(v, set) else v) for k, v in res.items()} if isinstance(res, dict) else {}
         rep.violation("C07: " + what, {"replay": rp, "family": FAMILY, "observed": _trim(detail),
                                        "more": [w0 for w0, _, _ in new_fail[1:6]], "lean_errors": errs[:5]})
@@ -1241,6 +1437,26 @@ def replay(path):
             print("VIOLATION property=C07 replay=%s" % path)
             return 1
         print("OK (the property's oracle holds on this replay)" if not orc else "KNOWN-FINDING: property=C07 %s" % findings["select-in-exec"]["id"])
+        return 0
+    if kind == "chain":
+        tw = Twin(rep)
+        try:
+            res = run_chain_case(tw, rp)
+        finally:
+            tw.close()
+        for st in res["steps"]:
+            print("%-40s %s" % (st["what"], st["text"]))
+            print("      impl: %s" % st["impl"])
+            if st["impl"] != st["code"]:
+                print("      CODE: %s   <-- model disagrees" % st["code"])
+            if st["impl"] != st["spec"]:
+                print("      SPEC: %s" % st["spec"])
+        for o in res["oracle"]:
+            print("ORACLE: %s  %s" % (o["why"], {k: v for k, v in o.items() if k not in ("why", "text", "what")}))
+        if res["oracle"]:
+            print("VIOLATION property=C07 replay=%s" % path)
+            return 1
+        print("OK (the property's oracle holds on this replay)")
         return 0
     if kind == "scenario":
         tw = Twin(rep)
